@@ -40,7 +40,9 @@ ALPHABET = {
     "cooling": ["", "CIC_HI", "CIC_HI, RC_HII"],
     "shielding": ["", "CO:V09Table", "H2:L96Table, CO:VB88Table"],
     "rate-modifier": [[], ["4894:0.0"], ["4894:Tgas>10.0 ? 1.0 : 2.0"], ["4894:1e-10*Tgas", "6599:0.0"]],
-    "ode-modifier": [[], ["H:-2.0*f,[C CH]"], ["H:f,[C];C2:g,[H H]"], ["C2:0.5*k[1]*y[IDX_CI],[H H]"], ["H:+R,[C];C2:-2*R,[C];H:-D,[C2];C2:+2*D,[C2]"]],
+    "ode-modifier": [[], ["H:-2.0*f,[C CH]"], ["H:f,[C];C2:g,[H H]"], ["C2:0.5*k[1]*y[IDX_CI],[H H]"], ["H:+R,[C];C2:-2*R,[C];H:-D,[C2];C2:+2*D,[C2]"],
+                     # the option given several times, each occurrence closed by ';' (the spelling `naunet example` writes)
+                     ["H:f,[C];", "C2:g,[H H];"], ["H:f,[C];", "C2:g,[H H]"], ["H:f,[C]", "C2:g,[H H];", "H:-h,[C2]"], ["H:f,[C];C2:g,[H H];"]],
     "solver-triple": [("cvode", "cpu", "dense"), ("cvode", "cpu", "sparse"), ("odeint", "cpu", "rosenbrock4"), ("cvode", "gpu", "cusparse"), ("cvode", "cpu", "rosenbrock4"), ("odeint", "cpu", "dense"), ("odeint", "cpu", "sparse")],
 }
 LEGAL_TRIPLES = {("cvode", "cpu", "dense"), ("cvode", "cpu", "sparse"), ("odeint", "cpu", "rosenbrock4"), ("cvode", "gpu", "cusparse")}
